@@ -22,6 +22,7 @@ HOURS = {
     "night": ["22:00 - 6:00"],
     "eve": ["18:00 - 2:00"],
     "mid": ["23:30 - 0:30"],
+    "late": ["18:00 - 0:00"],     # ends exactly ON midnight (nothing belongs to the following day)
     "all": ["0:00 - 24:00"],
 }
 OTHER_HOURS = [("mon - sun", ["13:00 - 15:00"])]
@@ -63,6 +64,12 @@ LEAVES = {
     "gleavenest": {"gl": [("holiday", "D1", "D9"), ("holiday", "D2", None), ("holiday", "D3", "D4")]},
     "rleavenest": {"res": [{"k": "leaves", "type": "annual", "a": "D1", "b": "D9"}, {"k": "leaves", "type": "sick", "a": "D2"},
                            {"k": "vacation", "a": "D3", "b": "D4"}]},
+    # days off that begin / end exactly on the first instant of a slot INSIDE the working day
+    "pvachour": {"vac": [("D1", "D1-13:00"), ("D2-13:00", "D3")]},
+    "gleavehour": {"gl": [("holiday", "D1", "D1-13:00"), ("holiday", "D2-13:00", "D3")]},
+    "rleavehour": {"res": [{"k": "leaves", "type": "annual", "a": "D1", "b": "D1-13:00"}, {"k": "vacation", "a": "D2-13:00", "b": "D3"}]},
+    # a day off stated on the resource GROUP next to days off the member states itself (both apply; only with a group attachment)
+    "grp+own": {"grp": [{"k": "leaves", "type": "annual", "a": "D1"}, {"k": "vacation", "a": "D8", "b": "D9"}], "res": [{"k": "leaves", "type": "sick", "a": "D3"}]},
     "span-start": {"res": [{"k": "leaves", "type": "annual", "a": "B5", "b": "D2"}]},      # begins 5 days before the project start
     "pspan-start": {"gl": [("holiday", "B3", "D1")]},
 }
@@ -116,7 +123,10 @@ def universe(tier):
     for lv in LEAVES:
         if lv == "none":
             continue
-        for hk, days, att in (("day", "mon - fri", "own"), ("night", "mon - fri", "own"), (None, None, "none"), ("all", "mon - sun", "shift")):
+        for hk, days, att in (("day", "mon - fri", "own"), ("night", "mon - fri", "own"), (None, None, "none"), ("all", "mon - sun", "shift"),
+                              ("day", "mon - fri", "inherit"), ("night", "mon - fri", "inherit-shift")):
+            if ("grp" in LEAVES[lv]) != att.startswith("inherit") and "grp" in LEAVES[lv]:
+                continue
             for z in ((None, "America/New_York") if att == "own" else (None,)):
                 for L in (60, 30):
                     for alap in (False, True):
@@ -228,6 +238,8 @@ def to_spec(it):
     lv = LEAVES[it["lv"]]
     if lv.get("res"):
         r["leaves"] = [{**x, "a": _subst(start, x["a"]), "b": _subst(start, x.get("b"))} for x in lv["res"]]
+    if lv.get("grp") and resources[0] is not r:
+        resources[0]["leaves"] = [{**x, "a": _subst(start, x["a"]), "b": _subst(start, x.get("b"))} for x in lv["grp"]]
     if lv.get("vac"):
         spec["vacations"] = [(_subst(start, a), _subst(start, b)) for a, b in lv["vac"]]
     if lv.get("gl"):
